@@ -2,6 +2,7 @@ import itertools
 from collections.abc import Mapping, Sequence
 from functools import update_wrapper
 from inspect import Parameter, Signature
+from keyword import iskeyword
 from typing import Any, Callable, Optional
 
 from ..code_tools.cascade_namespace import BuiltinCascadeNamespace, CascadeNamespace
@@ -53,9 +54,11 @@ class BuiltinConverterProvider(ConverterProvider):
             lambda x: "Cannot create top-level coercer",
         )
         closure_name = self._get_closure_name(request)
+        closure_var = self._get_closure_var(closure_name, request.signature)
         dumper_code, dumper_namespace = self._produce_code(
             signature=request.signature,
             closure_name=closure_name,
+            closure_var=closure_var,
             stub_function=request.stub_function,
             coercer=coercer,
         )
@@ -64,9 +67,45 @@ class BuiltinConverterProvider(ConverterProvider):
             code_gen_hook=fetch_code_gen_hook(mediator, LocStack(dst_loc)),
             namespace=dumper_namespace,
             closure_code=dumper_code,
-            closure_name=closure_name,
+            closure_name=closure_var,
             file_name=self._get_file_name(request),
         )
+
+    _OUTER_CONSTANTS = ("_closure_signature", "_stub_function", "_update_wrapper")
+
+    def _get_closure_var(self, closure_name: str, signature: Signature) -> str:
+        """Name of function can be any string, so it can not be always used as identifier inside generated code"""
+        base = closure_name
+        if not base.isidentifier() or iskeyword(base):
+            base = self._name_sanitizer.sanitize(base)
+        if not base.isidentifier() or iskeyword(base):
+            base = "converter"
+
+        occupied = {*signature.parameters.keys(), *self._OUTER_CONSTANTS}
+        name = base
+        for i in itertools.count(1):
+            if name not in occupied:
+                return name
+            name = f"{base}_{i}"
+        raise RuntimeError
+
+    def _render_parameters(self, namespace: CascadeNamespace, parameters: Sequence[Parameter]) -> str:
+        """Defaults are passed via namespace, their ``repr`` is not obliged to be a valid expression"""
+        result = []
+        for i, param in enumerate(parameters):
+            if param.kind == Parameter.KEYWORD_ONLY and (i == 0 or parameters[i - 1].kind != Parameter.KEYWORD_ONLY):
+                result.append("*")
+            if param.default is Signature.empty:
+                result.append(param.name)
+            else:
+                default_var = self._register_mangled(namespace, f"default_{param.name}", param.default)
+                result.append(f"{param.name}={default_var}")
+            if (
+                param.kind == Parameter.POSITIONAL_ONLY
+                and (i + 1 == len(parameters) or parameters[i + 1].kind != Parameter.POSITIONAL_ONLY)
+            ):
+                result.append("/")
+        return ", ".join(result)
 
     def _register_mangled(self, namespace: CascadeNamespace, base: str, obj: object) -> str:
         base = self._name_sanitizer.sanitize(base)
@@ -84,31 +123,28 @@ class BuiltinConverterProvider(ConverterProvider):
         signature: Signature,
         stub_function: Optional[Callable],
         closure_name: str,
+        closure_var: str,
         coercer: Coercer,
     ) -> tuple[str, Mapping[str, object]]:
         builder = CodeBuilder()
-        namespace = BuiltinCascadeNamespace(occupied=signature.parameters.keys())
+        namespace = BuiltinCascadeNamespace(occupied={*signature.parameters.keys(), closure_var})
         namespace.add_outer_constant("_closure_signature", signature)
         namespace.add_outer_constant("_stub_function", stub_function)
         namespace.add_outer_constant("_update_wrapper", update_wrapper)
         coercer_var = self._register_mangled(namespace, "coercer", coercer)
 
-        no_types_signature = signature.replace(
-            parameters=[param.replace(annotation=Signature.empty) for param in signature.parameters.values()],
-            return_annotation=Signature.empty,
-        )
         parameters = tuple(signature.parameters.values())
         ctx_passing = self._get_ctx_passing(parameters[1:])
         builder(
             f"""
-            def {closure_name}{no_types_signature}:
+            def {closure_var}({self._render_parameters(namespace, parameters)}):
                 return {coercer_var}({parameters[0].name}, {ctx_passing})
             """,
         )
         if stub_function is not None:
-            builder += f"_update_wrapper({closure_name}, _stub_function)"
-        builder += f"{closure_name}.__signature__ = _closure_signature"
-        builder += f"{closure_name}.__name__ = {closure_name!r}"
+            builder += f"_update_wrapper({closure_var}, _stub_function)"
+        builder += f"{closure_var}.__signature__ = _closure_signature"
+        builder += f"{closure_var}.__name__ = {closure_name!r}"
         return builder.string(), namespace.all_constants
 
     def _get_ctx_passing(self, ctx_parameters: Sequence[Parameter]) -> str:
